@@ -1,11 +1,14 @@
 #!/bin/sh
-# usage: tools/seedtest.sh <patch.diff> <PROP> [<PROP> ...]   -- apply a seeded change to /repo, run the quick checks, undo it
+# usage: tools/seedtest.sh <patch.diff> <PROP> [<PROP> ...]
+# Apply a seeded change to a scratch worktree of /repo (never to /repo itself), run the checks against that copy
+# (VERIF_REPO) with their outputs redirected to a scratch directory (VERIF_OUT), then remove the worktree.
 patch="$1"; shift
-git -C /repo apply --check "$patch" || { echo "PATCH DOES NOT APPLY"; exit 3; }
-git -C /repo apply "$patch"
+wt=$(mktemp -d /tmp/seedwt_XXXXXX); out=$(mktemp -d /tmp/seedout_XXXXXX)
+rmdir "$wt"; git -C /repo worktree add -q --detach "$wt" HEAD || exit 3
+git -C "$wt" apply --check "$patch" || { echo "PATCH DOES NOT APPLY"; git -C /repo worktree remove --force "$wt"; exit 3; }
+git -C "$wt" apply "$patch"
 for p in "$@"; do
-  /verif/check "$p" --tier "${TIER:-quick}" > /tmp/seedtest_$p.out 2>&1; rc=$?
-  echo "== $p exit=$rc"; grep -E "^VIOLATION|^KNOWN|^\[|HARNESS" /tmp/seedtest_$p.out | cut -c1-400 | head -8
+  VERIF_REPO="$wt" VERIF_OUT="$out" /verif/check "$p" --tier "${TIER:-quick}" > "$out/seedtest_$p.out" 2>&1; rc=$?
+  echo "== $p exit=$rc"; grep -E "^VIOLATION|^KNOWN|^\[|HARNESS" "$out/seedtest_$p.out" | cut -c1-400 | head -8
 done
-git -C /repo checkout -- .
-git -C /repo status --short | head -3
+git -C /repo worktree remove --force "$wt"; rm -rf "$out"
